@@ -1311,10 +1311,11 @@ package res
 //@ ghostvar mhit int
 //@ ghostvar mnode ref
 //@ ghostvar mfl arrb
+//@ ghostvar mpar int
 //@ func matchNode(l *node, toks []string, i int, mi int, nm *nodeMatch) (ok bool)
 //@   requires l != nil && isnode[ref(l)] && WF() && pendm == 0 && nm != nil && 0 <= mi && mi <= i && i < len(toks)
 //@   requires rel: imp(!l.mounted, i - mi == nr[ref(l)])
-//@   modifies *nm, alloc, ghost.mhit, ghost.mnode, ghost.mfl
+//@   modifies *nm, alloc, ghost.mhit, ghost.mnode, ghost.mfl, ghost.mpar
 //@   # C06, most specific match: the candidates of one level are tried in the order literal child, placeholder child,
 //@   # full wildcard; the search stops at the first success (mhit counts successful descents) and the match reported is
 //@   # the node of that success (mnode); nothing is reported only when no candidate of this level succeeded
@@ -1334,6 +1335,12 @@ package res
 //@   # path parameters: each reported value is the name's token at the placeholder's position (relative to the mount point in use), under the placeholder's name
 //@   ghost mapupdate params#1 before :: assert value.is.token: same(arg_value, toks[n.params[rangeindex].idx + mi]) && same(arg_key, n.params[rangeindex].name) && ref(nm.params) >= old(nextRef())
 //@   ghost mapupdate params#2 before :: assert value.is.token: same(arg_value, toks[n.params[rangeindex__2].idx + mi]) && same(arg_key, n.params[rangeindex__2].name) && ref(nm.params) >= old(nextRef())
+//@   # every placeholder of the matched node gets its entry (mpar counts the entries written by this activation's match)
+//@   ghost store mountIdx#1 before :: set mpar = 0
+//@   ghost store mountIdx#2 before :: set mpar = 0
+//@   ghost mapupdate params#1 before :: set mpar = mpar + 1
+//@   ghost mapupdate params#2 before :: set mpar = mpar + 1
+//@   ensures all.params: imp(ok && mhit == old(mhit), mpar == len(nm.n.params))
 //@   ghost store mountIdx#1 after :: set mnode = ref(n)
 //@   ghost store mountIdx#2 before :: assert no.hit: mhit == old(mhit)
 //@   ghost store mountIdx#2 after :: set mnode = ref(n)
@@ -1345,8 +1352,8 @@ package res
 //@   ghost loop 2 entry :: use open(n)
 //@   ghost loop 3 entry :: use open(n)
 //@   loop 1 invariant 0 <= i && i <= len(toks) && 0 <= mi && mi + nr[ref(l)] + 1 == i && WF() && l != nil && isnode[ref(l)] && nm != nil && imp(n != nil, childOK(l, n, true) || childOK(l, n, false)) && nm.n == old(nm.n)
-//@   loop 2 invariant -1 <= rangeindex && rangeindex < len(n.params) + 0 && i == len(toks) && 0 <= mi && mi + nr[ref(l)] + 1 == i && WF() && l != nil && isnode[ref(l)] && nm != nil && n != nil && (childOK(l, n, true) || childOK(l, n, false)) && nm.n == n && nm.mountIdx == mi && ref(nm.params) != 0
-//@   loop 3 invariant -1 <= rangeindex__2 && rangeindex__2 < len(n.params) + 0 && i <= len(toks) && 0 <= mi && mi + nr[ref(l)] + 1 == i && WF() && l != nil && isnode[ref(l)] && nm != nil && n != nil && childOK(l, n, false) && nm.n == n && nm.mountIdx == mi && ref(nm.params) != 0
+//@   loop 2 invariant mpar == rangeindex + 1 && -1 <= rangeindex && rangeindex < len(n.params) + 0 && i == len(toks) && 0 <= mi && mi + nr[ref(l)] + 1 == i && WF() && l != nil && isnode[ref(l)] && nm != nil && n != nil && (childOK(l, n, true) || childOK(l, n, false)) && nm.n == n && nm.mountIdx == mi && ref(nm.params) != 0
+//@   loop 3 invariant mpar == rangeindex__2 + 1 && -1 <= rangeindex__2 && rangeindex__2 < len(n.params) + 0 && i <= len(toks) && 0 <= mi && mi + nr[ref(l)] + 1 == i && WF() && l != nil && isnode[ref(l)] && nm != nil && n != nil && childOK(l, n, false) && nm.n == n && nm.mountIdx == mi && ref(nm.params) != 0
 //@ func (m *Mux) GetHandler(rname string) (mh *Match)
 //@   requires muxOK(m)
 //@   modifies alloc, res.Match.Handler, res.Match.Listeners, res.Match.Params, res.Match.Group
@@ -1358,6 +1365,7 @@ package res
 //@   ghost exit :: set mhit = old(mhit)
 //@   ghost exit :: set mnode = old(mnode)
 //@   ghost exit :: set mfl = old(mfl)
+//@   ghost exit :: set mpar = old(mpar)
 //@   # the default group is the full resource name (including the service name), as With/WithGroup callers spell it (C01)
 //@   ghost call group.toString#1 before :: assert full.name: same(arg_rname, rname)
 //@   loop 1 invariant 0 <= start && start <= i && i <= len(subrname) && len(tokens) >= 0 && muxOK(m) && len(subrname) > 0 && ref(tokens) >= old(nextRef())
